@@ -45,3 +45,8 @@ claim("C10", "other",
   "Narrow structural claim: the clauses whose failure produced the known shape asymmetries (X1-X4 as in C01), transparency of parentheses and precedence by construction (P1), spacing non-interference (W1), and agreement of all expansion dispatchers on the callee family per node kind (SIB).",
   "Commutativity, associativity, idempotence, absorption and distribution as algebraic laws of the expansion are NOT decided (relations over unboundedly many pairs of runtime trees).",
   "abstract interpretation + sibling cross-check of dispatchers", "DESIGN.md section 3 C10")
+
+claim("C04", "other",
+  "Error discipline decided over every return and every call of the single validity oracle: who may call the scanner/parser (V1), error implies zero result at every return in every analysed context (V2, abstract interpreter), no parse error dropped (V3), the origins of every error an entry point can return are exactly the specified ones (V4), ValidateLicenses is an in-order filter by 'parse fails' (V5), compound allowed entries are rejected before use (V6).",
+  "That parse's accept/reject decision is the SPDX grammar is C05; determinism is C13. V4 compares error origins and their guards with the specified set, so a new legitimate error condition must be added to the specification table in rules_c04.go.",
+  "call-graph who-may-call + abstract interpretation of result tuples + error provenance", "DESIGN.md section 3 C04")
